@@ -160,6 +160,8 @@ def k18_annotate(ctx, pid: str):
                 ants[e[2]] = e[3]
             if e[0] == "mutate" and isinstance(e[1], Term) and e[1] == Term("annotations", Term("product")) and e[2] == "update":
                 for a in e[3]:
+                    if isinstance(a, AList) and not a.generic and all(isinstance(x, tuple) and len(x) == 2 for x in a.items):
+                        a = dict(a.items)  # update([(key, value), ...])
                     if not isinstance(a, dict):
                         raise AnalysisError("%s: annotations.update(%r) is not followed" % (fi.where(), a))
                     ants.update(a)
@@ -172,7 +174,7 @@ def k18_annotate(ctx, pid: str):
         items = com.items if isinstance(com, AList) else ([com] if com is not None else [])
         txt = [repr(x) for x in items]
         okv = any("id(V)" in t for t in txt)
-        okm = any(("map(modules," in t or "generic<modules>" in t) and "id(m)" in t and "filter" not in t for t in txt)
+        okm = any(("map(modules," in t or "generic<modules>" in t) and "id(m)" in t and "filter" not in t and "|filtered" not in t for t in txt)
         edited = [e for e in o.path.effects if e[0] in ("setitem", "mutate") and isinstance(e[1], Term) and any(repr(e[1]) in t for t in txt)]
         if edited:
             okm = False  # the list that is joined was edited in place (shortened, abbreviated ...) before the join
